@@ -1,4 +1,7 @@
 import Mieru.Gen.FactsC20
+import Mieru.Gen.FactsC20Client
+import Mieru.Model.Validate
+import Mieru.Proofs.Validate
 import Mieru.Model.Url
 import Mieru.Model.Config
 import Mieru.Proofs.Url
@@ -309,6 +312,92 @@ theorem merge_server_covers_every_field :
     Mieru.Gen.FactsC20.serverConfigFields =
       ["PortBindings", "Users", "AdvancedSettings", "LoggingLevel", "Mtu", "Egress", "Dns", "TrafficPattern"] := by decide
 
+/-- **Structure of `mergeClientConfigByProfile`, regenerated from the source** (Gen/FactsC20Client.lean): every
+    field other than `Profiles` is chosen under the guard `src.F != nil` from `src.F` / `dst.F` — guard, patch
+    read and previous-value read all name the SAME field — in one of the two shapes the model's `orElse` stands
+    for, and written back to `dst.F` from that very variable; `proto.Reset(dst)` sits between the last read of
+    `dst` and the first write; with `Profiles` (merged by name) the written fields are exactly the message's
+    fields, each once; the field list is the one the model's `mergeClientConfig` ranges over. -/
+theorem merge_client_covers_every_field :
+    (Mieru.Gen.FactsC20Client.mergeClientChoices.all fun c =>
+        c.1 == c.2.2.1 && c.1 == c.2.2.2.1 && (c.2.2.2.2 == "getter" || c.2.2.2.2 == "pointer")) = true ∧
+    (((Mieru.Gen.FactsC20Client.mergeClientChoices.map fun c => (c.1, c.2.1)) ++ [("Profiles", "mergedProfiles")]).all
+      fun w => Mieru.Gen.FactsC20Client.mergeClientWrites.contains w) = true ∧
+    Mieru.Gen.FactsC20Client.mergeClientWrites.length = Mieru.Gen.FactsC20Client.mergeClientChoices.length + 1 ∧
+    Mieru.Gen.FactsC20Client.mergeClientResetBetween = true ∧
+    (Mieru.Gen.FactsC20Client.clientConfigFields.all fun f =>
+        (Mieru.Gen.FactsC20Client.mergeClientWrites.map (·.1)).count f == 1) = true ∧
+    Mieru.Gen.FactsC20Client.mergeClientWrites.length = Mieru.Gen.FactsC20Client.clientConfigFields.length ∧
+    Mieru.Gen.FactsC20Client.clientConfigFields =
+      ["Profiles", "ActiveProfile", "RpcPort", "Socks5Port", "AdvancedSettings", "LoggingLevel", "Socks5ListenLAN",
+       "HttpProxyPort", "HttpProxyListenLAN", "Socks5Authentication"] ∧
+    ((Mieru.Gen.FactsC20Client.mergeClientChoices.filter (·.2.2.2.2 == "getter")).map (·.1)) =
+      ["ActiveProfile", "Socks5Port", "LoggingLevel"] := by decide
+
+/-! ## the validators (`Mieru.Validate`: total functions returning the first failing check) -/
+open Mieru.Validate in
+/-- **Port-binding rules**: a binding `FlatPortBindings` accepts names TCP or UDP and denotes a non-empty interval
+    `[lo, hi] ⊆ [1, 65535]` (a non-zero `port` wins over `portRange`; a range must match `^(\d+)-(\d+)$` with both
+    numbers parsable). -/
+theorem valid_binding_rules (b : Binding) (h : bindingErr b = none) :
+    (b.protocol.getD 0 = tcp ∨ b.protocol.getD 0 = udp) ∧
+    ∃ lo hi, span b = some (lo, hi) ∧ 1 ≤ lo ∧ lo ≤ hi ∧ hi ≤ 65535 := bindingErr_none b h
+
+open Mieru.Validate in
+/-- **`FlatPortBindings`**: it succeeds iff every binding passes; its TCP (UDP) list holds exactly the ports covered
+    by a TCP (UDP) binding, all within [1, 65535]. -/
+theorem flat_port_bindings_rules (bs : List Binding) :
+    ((∃ r, flatPortBindings bs = .ok r) ↔ ∀ b ∈ bs, bindingErr b = none) ∧
+    ∀ t u, flatPortBindings bs = .ok (t, u) → ∀ p : Int,
+      (p ∈ t ↔ ∃ b ∈ bs, covers tcp p b = true) ∧ (p ∈ u ↔ ∃ b ∈ bs, covers udp p b = true) ∧
+      (p ∈ t ∨ p ∈ u → 1 ≤ p ∧ p ≤ 65535) :=
+  ⟨flat_ok_iff bs, fun t u h p => flat_ports_sound bs t u h p⟩
+
+open Mieru.Validate in
+/-- **User rules**: a user `ValidateServerConfigSingleUser` accepts has a name of 1..64 bytes, a password or a hashed
+    password, a password of at most 64 bytes, and only quotas with positive days and megabytes. -/
+theorem valid_user_rules (v : VUser) (h : userErr v = none) :
+    v.u.getName ≠ [] ∧ v.u.getName.length ≤ 64 ∧
+    (v.u.password.getD [] ≠ [] ∨ v.u.hashedPassword.getD [] ≠ []) ∧ (v.u.password.getD []).length ≤ 64 ∧
+    ∀ q ∈ v.quotas, 0 < q.1 ∧ 0 < q.2 := userErr_none v h
+
+open Mieru.Validate in
+/-- **`ValidateFullServerConfig`** accepts only what `ValidateServerConfigPatch` accepts, never the empty message, and
+    only with at least one port binding; every binding and every user of an accepted configuration passes its own rules. -/
+theorem valid_full_server (c : VServer) (h : fullServerErr c = none) :
+    serverPatchErr c = none ∧ c.isEmptyMsg = false ∧ c.bindings ≠ [] ∧ (∀ b ∈ c.bindings, bindingErr b = none) ∧
+    (∀ u ∈ c.users, userErr u = none) := fullServer_none c h
+
+open Mieru.Validate in
+/-- **valid ⇒ ExportOK**: every server of a profile that `ValidateClientConfigSingleProfile` accepts meets the
+    hypotheses of `mierus_roundtrip`, PROVIDED the profile carries a plaintext password (a hashed-only profile is
+    valid but not exportable: the exporter refuses it), its enum numbers are known ones (proto3 enums are open), and
+    no binding sets both `port` and `portRange` (known finding) or writes its range with leading zeros
+    (`Exportable`; `0080-0090` imports as `80-90`). Name, user, host, non-empty bindings, MTU range, protocol and
+    port/range well-formedness all FOLLOW from the validator. -/
+theorem valid_profile_export_ok (isIP : List UInt8 → Bool) (v : VProfile) (s : Server)
+    (hv : profileErr isIP v = none) (hs : s ∈ v.p.servers)
+    (hpw : v.p.password.getD [] ≠ [])
+    (hmux : ∀ l, v.p.multiplexing = some (some l) → 0 ≤ l ∧ l ≤ 4)
+    (hhs : ∀ h, v.p.handshakeMode = some h → 0 ≤ h ∧ h ≤ 2)
+    (hb : ∀ b ∈ s.bindings, Exportable b) : ExportOK v.p s :=
+  valid_export_ok isIP v s hv hs hpw hmux hhs hb
+
+open Mieru.Validate in
+/-- **export → import for every VALID profile** (composition of `valid_profile_export_ok` and `mierus_roundtrip`):
+    for each server of a validated profile the exporter succeeds and importing its link yields `imported`. -/
+theorem valid_profile_mierus_roundtrip (isIP tpOK : List UInt8 → Bool) (v : VProfile) (s : Server)
+    (hv : profileErr isIP v = none) (hs : s ∈ v.p.servers)
+    (hpw : v.p.password.getD [] ≠ [])
+    (hmux : ∀ l, v.p.multiplexing = some (some l) → 0 ≤ l ∧ l ≤ 4)
+    (hhs : ∀ h, v.p.handshakeMode = some h → 0 ≤ h ∧ h ≤ 2)
+    (hb : ∀ b ∈ s.bindings, Exportable b)
+    (htp : ∀ tp, v.p.trafficPattern = some tp → tpOK tp = true) :
+    ∃ l, profileToLink v.p s = .ok l ∧
+      urlToProfile isIP tpOK (parsedOf v.p s l.rawQuery) = .ok (imported isIP v.p s) :=
+  let ⟨l, h1, h2, _⟩ := mierus_roundtrip isIP tpOK v.p s (valid_export_ok isIP v s hv hs hpw hmux hhs hb) htp
+  ⟨l, h1, h2⟩
+
 end Mieru.C20
 
 /-! ## Non-vacuity -/
@@ -351,4 +440,20 @@ example : unescape .query [37, 122, 122] = none := by decide
 example : atoi [43, 56, 48] = some 80 := by decide
 example : atoi [49, 45, 50] = none := by decide
 
+end Mieru.C20
+
+namespace Mieru.C20
+open Mieru.Validate in
+example : bindingErr { portRange := some [56, 48, 45, 57, 48], protocol := some 1 } = none ∧
+    span { portRange := some [56, 48, 45, 57, 48], protocol := some 1 } = some (80, 90) ∧
+    bindingErr { port := some 80, portRange := some [120], protocol := some 2 } = none ∧
+    bindingErr { port := some 65536, protocol := some 2 } = some .portInvalid ∧
+    bindingErr { portRange := some [57, 45, 49], protocol := some 2 } = some .rangeBeginGtEnd ∧
+    bindingErr { portRange := some [48, 56, 48, 45, 57, 48], protocol := some 3 } = some .protoUnknown := by decide
+open Mieru.Validate in
+example : fullServerErr { bindings := [{ port := some 443, protocol := some 2 }], users := [{ u := { name := some [97], password := some [112] }, quotas := [(1, 1)] }], mtu := 1400 } = none ∧
+    fullServerErr { users := [{ u := { name := some [97], password := some [112] } }] } = some .serverNoPortBinding ∧
+    userErr { u := { name := some [97], hashedPassword := some [48] }, quotas := [(0, 1)] } = some .quotaDays := by decide
+open Mieru.Validate in
+example : profileErr (fun _ => true) { p := { profileName := some [100], userName := some [117], password := some [112], servers := [{ ipAddress := some [49], bindings := [{ port := some 443, protocol := some 2 }] }] } } = none := by decide
 end Mieru.C20
